@@ -319,7 +319,7 @@ def stream_getters_hist(rng, tier):
         ops = reach_state(rng, rich=True)
         ops += ['fifo rddis:%d' % rng.randrange(2), 'acc pm:%d' % rng.randrange(3)]
         rng.shuffle(ops)
-        gs = [g for g in GETTERS if g not in ('data', 'unscaled')]
+        gs = list(GETTERS) + ['data', 'unscaled', 'rfifo:7']
         rng.shuffle(gs)
         low = [0x90] + [rng.randrange(256) for _ in range(24)]
         out.append(case('gh%d' % i, rng.choice(['i2c', 'spi']), ops + gs, 'low=' + hexs(low)))
@@ -586,6 +586,41 @@ def stream_fifo_wf(rng, tier):
             t = ('cut', f, rng.randint(1, len(enc_frame(f)) - 1))
         out.append(fifo_case('w%d' % n, rng, specs, t, rng.choice(['i2c', 'spi'])))
         n += 1
+    return out
+
+
+def stream_fifo_huge(rng, tier):
+    """C05 has no length bound: a buffer of more than 65 535 bytes whose frames chain all the way
+    (a cursor kept in 16 bits wraps only here).  Judged on the crate only (the list-based Lean
+    model needs ~40 s for one such run, the judge ~12 s)."""
+    out = []
+    for i in range(1 if tier == 'quick' else 3):
+        specs, total = [], 0
+        while total < 65600 + 500 * i:
+            f = rand_frame(rng)
+            specs.append(f)
+            total += len(enc_frame(f))
+        out.append(fifo_case('hg%d' % i, rng, specs, ('none',) if i % 2 == 0 else ('marker', [1, 2, 3])))
+    return out
+
+
+def stream_odr_faults(rng, tier):
+    """C06 / C16: an ODR change cut by a bus error at each of its writes, then an enable that is
+    legal for only one of the two rates: the validation must use the rate the DEVICE has"""
+    out = []
+    n = 0
+    enables = [('stap', []), ('dtap', []), ('gen1', ['gen1 src:0']), ('gen2', ['gen2 src:0']), ('actch', ['act src:0'])]
+    for o1 in (2, 3, 4):
+        for o2 in (2, 3, 4):
+            if o1 == o2:
+                continue
+            for en, pre in enables:
+                for k in (0, 1, 2):
+                    ops = pre + ['acc odr:%d src:%d pm:%d' % (o1, rng.randrange(3), rng.randrange(3)),
+                                 'acc odr:%d src:%d pm:%d osr:%d !%d' % (o2, rng.randrange(3), rng.randrange(3), rng.randrange(4), k),
+                                 'int %s:1' % en, 'int', 'data']
+                    out.append(case('of%d' % n, 'i2c', ops))
+                    n += 1
     return out
 
 
@@ -865,6 +900,12 @@ def stream_twin(rng, tier):
                                               hexs([rng.randrange(256) for _ in range(20)]))
         out.append(case('x%da' % i, 'i2c', ops, hdr))
         out.append(case('x%db' % i, 'spi', ops, hdr))
+    # the same request before and after a reset / self test / command (a transport must not remember)
+    for j, l in enumerate(stream_reapply(rng, tier, ('i2c',))):
+        secs = l.split(' | ')
+        h = secs[0].split(' ')
+        out.append(' | '.join([' '.join(['y%da' % j, 'i2c'] + h[2:])] + secs[1:]))
+        out.append(' | '.join([' '.join(['y%db' % j, 'spi'] + h[2:])] + secs[1:]))
     return out
 
 
@@ -941,7 +982,7 @@ def raw_kinds(journal_field):
             for t in journal_field.split(' ') if t and not (t[0] == 'd' and t[1:].isdigit())]
 
 
-def stream_faults_from(base_cases, base_obs, rng, tier, recover=True, data_only=False, double=False):
+def stream_faults_from(base_cases, base_obs, rng, tier, recover=True, data_only=False, double=False, double_data=False):
     """C15 / C16 / C20: for the last operation of every base case, one case per raw-operation
     index k failing, followed by recovery requests.  `base_obs` are fault-free observations
     (they tell how many raw operations the operation performs)."""
@@ -968,6 +1009,14 @@ def stream_faults_from(base_cases, base_obs, rng, tier, recover=True, data_only=
             if len(dk) > 4:
                 dk = sorted(rng.sample(dk, 4))
             ks += ['%d,%d' % (k, k + 1) for k in dk] + ['%d,%d' % (k, k + 2) for k in dk[:2]]
+        if double_data:
+            # two consecutive DATA operations failing (a best-effort write after a failed one)
+            kinds = raw_kinds(obs[-1].split(';')[1])
+            if 'p' not in kinds:
+                dk = list(range(nraw))
+                if len(dk) > 5:
+                    dk = sorted(rng.sample(dk, 5))
+                ks += ['%d,%d' % (k, k + 1) for k in dk]
         for k in ks:
             head = secs[0].split(' ')
             head[0] = 'e%d' % n
@@ -975,6 +1024,9 @@ def stream_faults_from(base_cases, base_obs, rng, tier, recover=True, data_only=
             if recover:
                 b = last.split(' ')[0]
                 # recovery: retry, re-assert every enable, rewrite the block
+                if n % 4 == 3:
+                    # the very next call is hit as well (early raw positions)
+                    ops.append(last + ' !%d' % rng.choice([0, 1, 1, 2, 2]))
                 ops.append(last)
                 ops.append('int drdy:1 fwm:1 ffull:1 orient:1 step:1 latch:1')
                 ops.append('data')
